@@ -4,3 +4,4 @@ import Thanos.Props.C13
 import Thanos.Props.C12
 import Thanos.Props.C16
 import Thanos.Props.C14
+import Thanos.Props.C11
